@@ -87,6 +87,56 @@ func c19Pairs(s string) [][2]uint64 {
 type c19Pc struct {
 	blk, num, id uint64
 	sig          uint64 // vc: signature token; just: kind index into c19Kinds
+	kind         string // just/wrap: overrides sig when set (`cn<X>`)
+}
+
+func (p c19Pc) kindStr() string {
+	if p.kind != "" {
+		return p.kind
+	}
+	return c19Kinds[p.sig]
+}
+
+// c19Forge adds a forged copy of a genuine precommit: same voter, same target hash, another number, and
+// (a) the signature copied from the genuine entry (`cn<genuine number>`: does not verify for the copy), at
+// any position, or (b) a fresh honest signature over the forged pair (a real equivocation, numbers being
+// part of the vote).  It reports whether an entry was added (`fz=1`: verdict-only observation) and whether
+// the case must be a `justl` line (a validly signed bogus number reaches the vote graph or the base).
+func c19Forge(c *c19Case, r *vhRng) (fz bool, lie bool) {
+	var cand []int
+	for i, p := range c.pcs {
+		if p.blk < uint64(len(c.par)) && p.sig == 0 && p.kind == "" {
+			cand = append(cand, i)
+		}
+	}
+	if len(cand) == 0 {
+		return false, false
+	}
+	i := cand[r.Intn(len(cand))]
+	g := c.pcs[i]
+	nn := []uint64{g.num + 1, g.num - 1, 0, c.mask(), c.tNum, g.num + 2}[r.Intn(6)] & c.mask()
+	if nn == g.num {
+		nn = (g.num + 1) & c.mask()
+	}
+	f := c19Pc{blk: g.blk, num: nn, id: g.id}
+	pos := r.Intn(len(c.pcs) + 1)
+	if r.Chance(2, 3) {
+		f.kind = fmt.Sprintf("cn%d", g.num)
+	} else {
+		// the voter's first precommit in the list must stay a genuine one and the base must not move
+		first := i
+		for k, p := range c.pcs {
+			if p.id == g.id {
+				first = k
+				break
+			}
+		}
+		if pos <= first || nn < g.num {
+			lie = true
+		}
+	}
+	c.pcs = append(c.pcs[:pos:pos], append([]c19Pc{f}, c.pcs[pos:]...)...)
+	return true, lie
 }
 
 var c19Kinds = []string{"ok", "wr", "ws", "wk", "wn", "bad"}
@@ -450,7 +500,16 @@ func c19GenJust(r *vhRng) string {
 		}
 		c.pcs[i].sig = k
 	}
-	need := c19Need(c, r)
+	need := c19Need(c, r) // the headers a prover would attach for the genuine entries
+	kindName, fzField := "just", ""
+	if r.Chance(1, 5) {
+		if fz, lie := c19Forge(c, r); fz {
+			fzField = " fz=1"
+			if lie {
+				kindName = "justl"
+			}
+		}
+	}
 	ftB, ftN := c.tBlk, c.tNum
 	if r.Chance(1, 25) {
 		if r.Bool() {
@@ -461,7 +520,7 @@ func c19GenJust(r *vhRng) string {
 	}
 	var ops []string
 	for _, p := range c.pcs {
-		ops = append(ops, fmt.Sprintf("%d %d %d %s", p.blk, p.num, p.id, c19Kinds[p.sig]))
+		ops = append(ops, fmt.Sprintf("%d %d %d %s", p.blk, p.num, p.id, p.kindStr()))
 	}
 	// header numbers are never read by the verification; they stay below 2^30 so that this check does
 	// not depend on how SCALE decodes large compact integers (properties C09-C14)
@@ -469,7 +528,7 @@ func c19GenJust(r *vhRng) string {
 	if hoff >= 1<<30 {
 		hoff %= 1000
 	}
-	return fmt.Sprintf("just w=%d r=%d s=%d off=%d v=%s t=%s h=%s c=%d:%d ft=%d:%d|%s", c.w, r.Intn(3), r.Intn(3),
+	return fmt.Sprintf("%s w=%d%s r=%d s=%d off=%d v=%s t=%s h=%s c=%d:%d ft=%d:%d|%s", kindName, c.w, fzField, r.Intn(3), r.Intn(3),
 		hoff, c19JoinPairs(c.voters), c19JoinList(c.par), c19JoinList(need), c.tBlk, c.tNum, ftB, ftN,
 		strings.Join(ops, ";"))
 }
@@ -493,6 +552,15 @@ func c19GenWrap(r *vhRng) string {
 		c.pcs[i].sig = k
 	}
 	need := c19Need(c, r)
+	fzField := ""
+	if r.Chance(1, 5) {
+		save := append([]c19Pc{}, c.pcs...)
+		if fz, lie := c19Forge(c, r); fz && !lie {
+			fzField = " fz=1"
+		} else {
+			c.pcs = save // a bogus number that reaches the vote graph is left to the `justl` stream
+		}
+	}
 	tn := c.tNum
 	// change blocks
 	cand := map[uint64]bool{}
@@ -587,9 +655,9 @@ func c19GenWrap(r *vhRng) string {
 	}
 	var ops []string
 	for _, p := range c.pcs {
-		ops = append(ops, fmt.Sprintf("%d %d %d %s", p.blk, p.num, p.id, c19Kinds[p.sig]))
+		ops = append(ops, fmt.Sprintf("%d %d %d %s", p.blk, p.num, p.id, p.kindStr()))
 	}
-	return fmt.Sprintf("wrap cs=%s cur=%d as=%s ib=%d:%d r=%d s=%d off=%d t=%s h=%s c=%d:%d|%s",
-		c19JoinList(cs), len(cs)-1, strings.Join(sets, "/"), ibB, ibN, r.Intn(4), sset, hoff,
+	return fmt.Sprintf("wrap cs=%s cur=%d%s as=%s ib=%d:%d r=%d s=%d off=%d t=%s h=%s c=%d:%d|%s",
+		c19JoinList(cs), len(cs)-1, fzField, strings.Join(sets, "/"), ibB, ibN, r.Intn(4), sset, hoff,
 		c19JoinList(c.par), c19JoinList(need), c.tBlk, c.tNum, strings.Join(ops, ";"))
 }
